@@ -51,9 +51,15 @@ type verifReader struct {
 	name      string
 	started   bool
 	finished  bool
+	onRead    func(k int) // optional: called before the k-th read (k = 0, 1, ...)
+	reads     int
 }
 
 func (r *verifReader) Read(b []byte) (int, error) {
+	if r.onRead != nil {
+		r.onRead(r.reads)
+	}
+	r.reads++
 	if r.failAt >= 0 && r.pos >= r.failAt {
 		if r.failErr != nil {
 			return 0, r.failErr
@@ -529,4 +535,36 @@ func VerifH_C11_metaRequest() {
 	}
 	vf.Assert(w.inAtBody == 2, "ok-only-after-every-line")
 	vf.Reach("served-with-meta")
+}
+
+// C11.H2c: the server is shut down (the plugin's stop channel is closed, as at the end of listenHTTP) while a
+// request is still being read: the request is either served completely - 200 only after every line of the
+// body was handed over - or answered with an error; it is never acknowledged half-read.
+func VerifH_C11_shutdownDuringRequest() {
+	ctl := &verifCtl{}
+	p := verifNewPlugin(ctl, 1+vf.Choose("buf", 2), 1)
+	p.stopChan = make(chan struct{})
+	body := []byte("ab\ncd\nef")
+	closeAt := vf.Choose("shutdown-before-read", 6) // 5: not during this request
+	closed := false
+	rd := &verifReader{body: body, failAt: -1}
+	rd.onRead = func(k int) {
+		if k == closeAt && !closed {
+			closed = true
+			close(p.stopChan)
+			vf.Reach("shutdown-while-reading")
+		}
+	}
+	w := &verifRW{h: nethttp.Header{}, inAtBody: -1, ctl: ctl}
+	req := &nethttp.Request{Method: "POST", Header: nethttp.Header{}, Body: io.NopCloser(rd)}
+	p.serveBulk(w, req, nil)
+	if vf.Param("twin", 0) == 1 {
+		vf.Assert(w.status != 200, "twin")
+		return
+	}
+	if w.status == 200 {
+		ok := len(ctl.calls) == 3 && string(ctl.calls[0].data) == "ab" && string(ctl.calls[1].data) == "cd" && string(ctl.calls[2].data) == "ef"
+		vf.Assert(ok, "ok-only-after-every-line-also-during-shutdown")
+	}
+	vf.Reach("served")
 }
